@@ -175,6 +175,11 @@ Definition sci_value (neg : bool) (m x : Z) (p : nat) : Q :=
 Definition sci_shown (q : Q) (p : nat) : Q :=
   if Qeq_bool q 0 then sci_value false 0 0 p
   else let '(m, x) := sig_round q (S p) in sci_value (qneg q) m x p.
+(* the decimal exponent Fmt.ilog10 finds is the right one for q (decidable; holds on every value of every run) *)
+Definition sig_ok (q : Q) : bool :=
+  let x := ilog10 q in Qle_bool (Qpow10 x) (Qabs q) && negb (Qle_bool (Qpow10 (x + 1)) (Qabs q)).
+Definition fval_sig_ok (v : fval) : bool :=
+  match v with Fin q => Qeq_bool q 0 || sig_ok q | _ => true end.
 (* what a reader / the client gets from a rendered value *)
 Definition printed (k : fkind) (q : Q) : Q :=
   match k with KFix => shown q 2 | KSci => sci_shown q 2 | KPct => shown (100 * q) 2 end.
